@@ -25,6 +25,9 @@ def build(repo='/repo'):
             shutil.copy(os.path.join(CRATE, n), crate)
         shutil.copytree(os.path.join(CRATE, 'src'), os.path.join(crate, 'src'))
         t = open(os.path.join(crate, 'Cargo.toml')).read().replace('path = "/repo"', 'path = "%s"' % repo)
+        global TARGET
+        TARGET = os.path.join(VERIF, '.work', 'replay-target-alt')   # never share build output between different trees
+        shutil.rmtree(TARGET, ignore_errors=True)
         open(os.path.join(crate, 'Cargo.toml'), 'w').write(t)
     p = subprocess.run(['cargo', 'build', '--offline', '--bin', 'witness', '--target-dir', TARGET], cwd=crate, env=env,
                        stdout=subprocess.PIPE, stderr=subprocess.STDOUT, text=True, timeout=900)
